@@ -345,6 +345,39 @@ func (e *Enc) mergeStates(b *ssa.BasicBlock, live []int, conds []string) *State 
 			ns.heap[k] = e.define("hm", hk.Sort, cur)
 		}
 	}
+	// version tokens
+	{
+		ns.ver = map[string]string{}
+		roots := map[string]bool{}
+		for _, i := range live {
+			for r := range e.out[b.Preds[i]].ver {
+				roots[r] = true
+			}
+		}
+		for r := range roots {
+			v0 := e.verToken(first, r)
+			same := true
+			for _, i := range live {
+				if e.verToken(e.out[b.Preds[i]], r) != v0 {
+					same = false
+				}
+			}
+			if same {
+				ns.ver[r] = v0
+			} else {
+				e.nver++
+				ns.ver[r] = fmt.Sprintf("%d", e.nver)
+			}
+		}
+		ns.gver = first.gver
+		for _, i := range live {
+			if e.out[b.Preds[i]].gver != first.gver {
+				e.nver++
+				ns.gver = fmt.Sprintf("%d", e.nver)
+				break
+			}
+		}
+	}
 	// allocation counter
 	{
 		var cur string
@@ -494,7 +527,7 @@ func (e *Enc) execInstr(ins ssa.Instruction, st *State) {
 		e.vals[ins] = &Val{T: ins.Type(), L: x.L, Root: x.Root, Path: x.Path, Closure: x.Closure}
 	case *ssa.ChangeInterface:
 		x := e.val(ins.X)
-		e.vals[ins] = &Val{T: ins.Type(), L: x.L}
+		e.vals[ins] = &Val{T: ins.Type(), L: x.L, Box: x.Box, Closure: x.Closure}
 	case *ssa.Convert:
 		e.vals[ins] = e.convert(e.val(ins.X), ins.Type(), st, ins.Pos())
 	case *ssa.MultiConvert:
@@ -655,13 +688,33 @@ func (e *Enc) execAlloc(ins *ssa.Alloc, st *State) {
 	e.vals[ins] = p
 	e.allocd = append(e.allocd, ins)
 	e.zeroInit(st, p.Root, ref)
+	// ghost fields of a new object start at 0
+	for g := range e.DB.GhostFields {
+		hk := e.hkeyNamed(types.Typ[types.UnsafePointer], "/"+g+":"+typeKey(ins.Type()), "Int")
+		e.heapSet(st, hk, sStore(e.heapGet(st, hk), []string{ref, "0"}, "0"))
+	}
 }
 
 // zeroInit sets the whole row of object ref to zero in every heap array of root.
 func (e *Enc) zeroInit(st *State, root types.Type, ref string) {
 	for _, lf := range typeLeaves(root) {
-		hk := e.hkey(root, lf.PathKey(), lf, lf.Dims)
-		rowSort := arraySort(lf.Sort, 1+lf.Dims)
+		if lf.Dims > 0 {
+			// embedded array of the object at (ref, 0): zero its element row
+			p := &Val{T: types.NewPointer(root), L: []string{ref, "0"}, Root: root}
+			for _, a := range e.accesses(p, root) {
+				if len(a.Idx) == 1 {
+					e.heapSet(st, a.HK, "(store "+e.heapGet(st, a.HK)+" "+a.Idx[0]+" "+zeroOfSort(arraySort(a.Leaf.Sort, 1))+")")
+				}
+			}
+			break
+		}
+	}
+	for _, lf := range typeLeaves(root) {
+		if lf.Dims > 0 {
+			continue
+		}
+		hk := e.hkey(root, lf.PathKey(), lf, 0)
+		rowSort := arraySort(lf.Sort, 1)
 		e.heapSet(st, hk, "(store "+e.heapGet(st, hk)+" "+ref+" "+zeroOfSort(rowSort)+")")
 	}
 }
@@ -1138,7 +1191,7 @@ func (e *Enc) makeInterface(x *Val, T types.Type) *Val {
 	for i := range x.L {
 		e.assume("(= (" + e.unboxName(T, i) + " " + r + ") " + x.L[i] + ")")
 	}
-	return &Val{T: types.NewInterfaceType(nil, nil), L: []string{r}, Closure: x.Closure}
+	return &Val{T: types.NewInterfaceType(nil, nil), L: []string{r}, Closure: x.Closure, Box: x}
 }
 
 func (e *Enc) execTypeAssert(ins *ssa.TypeAssert, st *State) {
@@ -1277,14 +1330,7 @@ func (e *Enc) execSlice(ins *ssa.Slice, st *State) {
 		if e.opts.Safe["slice"] && (ins.Low != nil || ins.High != nil || ins.Max != nil) {
 			e.oblige("safe.slice", "", "(and (<= 0 "+lo+") (<= "+lo+" "+hi+") (<= "+hi+" "+mx+") (<= "+mx+" "+n+"))", ins.Pos(), "array slice bounds")
 		}
-		if !pointeeIsRow(x, arr) {
-			e.note("slice of interior array (%s): opaque slice, writes through it are not tracked", ins.X.Name())
-			r := e.freshVal("islice", ins.Type(), true)
-			e.assume("(= " + r.L[slLen] + " " + e.simpSub(hi, lo) + ")")
-			e.assume("(> " + r.L[slRef] + " 0)")
-			e.vals[ins] = r
-			return
-		}
+		x = e.rowPtr(x, arr)
 		e.vals[ins] = e.annotate(&Val{T: ins.Type(), L: []string{
 			x.L[0], e.simpAdd(x.L[1], lo), e.simpSub(hi, lo), e.simpSub(mx, lo)}})
 	default:
@@ -1325,13 +1371,8 @@ func (e *Enc) execIndexAddr(ins *ssa.IndexAddr, st *State) {
 			}
 		}
 		e.nilCheck(x, ins.Pos(), "index of nil array pointer")
-		if pointeeIsRow(x, arr) {
-			e.vals[ins] = &Val{T: ins.Type(), L: []string{x.L[0], e.simpAdd(x.L[1], i)}, Root: x.Root}
-		} else {
-			nv := &Val{T: ins.Type(), L: x.L, Root: x.Root}
-			nv.Path = append(append([]Step{}, x.Path...), Step{Field: -1, Index: i})
-			e.vals[ins] = nv
-		}
+		x = e.rowPtr(x, arr)
+		e.vals[ins] = &Val{T: ins.Type(), L: []string{x.L[0], e.simpAdd(x.L[1], i)}, Root: x.Root}
 	default:
 		e.fail("IndexAddr on %v", ins.X.Type())
 	}
